@@ -13,13 +13,13 @@ CONSTANTS
   Versions <- MCVersions
   TplDefs <- MCTplDefs
   SchemaMenu <- MCSchemaMenu
-  TxMenu <- MCTxMenuL
+  TxMenu <- MCTxMenuS
   MetaMenu <- MCMetaMenu
   AllKeys <- MCAllKeys
   Addrs <- MCAddrs
   Modes <- MCModes
   MaxSteps = 2
   ModelDeviations = TRUE
-  Follow <- MCFollowD1D2
+  Follow <- MCFollowNone
   EmitAll = TRUE
 INVARIANTS TypeOK NoEffectOnReject OneLogPerWrite DefaultsOnlyAtCreation NoAccountDeleted StrictRequiresVersion StrictChartEnforced StrictHasNoDeviation AuditAcceptsAll AuditRelaxesStrict
